@@ -545,6 +545,9 @@ func (g *genState) genCase(id string) {
 		}
 		g.open = true
 		g.sh.begin(g.locked)
+		if r.Chance(8) {
+			g.emit("late %s", hx.Pick(r, []string{"abort", "abort", "commit"}))
+		}
 		nops := 1 + r.Intn(8)
 		for i := 0; i < nops; i++ {
 			// Next with the open write transaction right after it deleted/changed something
